@@ -370,7 +370,14 @@ class Session:
         return p in self.W["scalars"]
 
     def op_cmode(self, op):
-        e = self.guarded(lambda: getattr(self.lookup(op["o"]), op["b"]).constraint_mode(op["en"]))
+        def do():
+            if op.get("raw"):
+                # inside a raw_mode section (where users also set the rand_mode of scalar fields): the same per-instance toggle
+                with vsc.raw_mode():
+                    getattr(self.lookup(op["o"]), op["b"]).constraint_mode(op["en"])
+            else:
+                getattr(self.lookup(op["o"]), op["b"]).constraint_mode(op["en"])
+        e = self.guarded(do)
         self.emit({"op": "cmode", "o": op["o"], "b": op["b"], "en": op["en"], "exc": e,
                    "post": self.project(), "stk": stk()})
 
